@@ -97,6 +97,16 @@ pub fn run_c14(ctx: &Ctx) -> i32 {
             }
         }
     }
+    // long writes (>= 8 KiB) next to short ones in one session: buffers inside a write handle
+    let (cases, evals, v3) = lengths_and_buffers(
+        "C14",
+        &[HB::Mem, HB::Phys, HB::AltPhys, HB::OvUpper, HB::OvPhysLower],
+        &[8193, 16385],
+        &[8192],
+    );
+    println!("  [two writes of different size per session, lengths 8193 / 16385] cases={} reads={} violations={}", cases, evals, v3.len());
+    steps += evals;
+    vio.extend(v3);
     let cov = json!({
         "states": classes.len().max(1),
         "transitions": steps.max(1),
@@ -201,6 +211,19 @@ pub fn run_c04(ctx: &Ctx) -> i32 {
             },
         ));
     }
+    // the same name in several read-only layers with different lengths (which layer answers metadata?)
+    spaces.push(TreeSpace::new(
+        "C04",
+        Cfg::Ov(vec![Cfg::Mem, Cfg::Mem, Cfg::Mem]),
+        Order::Asc,
+        alphabet(two.clone(), &[b"x"], 3, false),
+        Domain::Typed,
+        layerings(&[0, 1, 2], &two.paths, false),
+        Monitors {
+            model: true,
+            ..Default::default()
+        },
+    ));
     let lim = limits(ctx);
     let (stats, v2) = run_spaces(ctx, spaces, &lim);
     vio.extend(v2);
